@@ -60,7 +60,7 @@ let () = run_lines (fun toks ->
      | "invmodunit" -> sp (Model.zp_invmodunit p k s (po 0) (po 1))
      | "lcm" -> sp (Model.zp_lcm p k s (po 0) (po 1))
      | "pow" -> sp (Model.zp_pow p k (po 0) (n_of a.(1)))
-     | "powmod" -> sp (Model.zp_powmod p k s (po 0) (n_of a.(1)) (po 2))
+     | "powmod" -> sp (Model.zp_powmod p k s (Array.length a > 3 && a.(3) = "e0red") (po 0) (n_of a.(1)) (po 2))
      | "addin" -> sp (Model.zp_addin p (po 0) (po 1))
      | "isDivisor" -> sb (Model.zp_isDivisor p k s (po 0) (po 1))
      | "modpowx" -> sp (Model.zp_modpowx p (po 0) (nat_of_int (int_of_string a.(1))))
@@ -81,5 +81,26 @@ let () = run_lines (fun toks ->
      | "axmy_s" -> sp (Model.zp_axmy_s p (sc 0) (po 1) (po 2))
      | "axmyin" -> sp (Model.zp_axmyin p k (po 0) (po 1) (po 2))
      | "axmyin_s" -> sp (Model.zp_axmyin_s p (po 0) (sc 1) (po 2))
+     | "shift" -> sp (Model.zp_shiftin p (po 0) (nat_of_int (int_of_string a.(1))))
+     | "getEntry" -> string_of_z (Model.zp_getEntry p (po 0) (nat_of_int (int_of_string a.(1))))
+     | "setEntry" -> sp (Model.zp_setEntry p (po 0) (sc 1) (nat_of_int (int_of_string a.(2))))
+     | "val" -> string_of_z (Model.zp_val p (po 0))
+     | "maxpy_s" -> sp (Model.zp_maxpy_s p (sc 0) (po 1) (po 2))
+     | "mod_ps" -> sp (Model.zp_mod_ps p (po 0) (sc 1))
+     | "midmul" -> sp (Model.zp_midmul p k (po 0) (po 1))
+     | "stdmidmul" -> sp (Model.zp_stdmidmul p (po 0) (po 1))
+     | "karamidmul" -> sp (Model.zp_karamidmul p k (po 0) (po 1))
+     | "midmul_raw" -> sp (Model.zp_midmul_raw p k (po 0) (po 1))
+     | "stdmidmul_raw" -> sp (Model.zp_stdmidmul_raw p (po 0) (po 1))
+     | "karamidmul_raw" -> sp (Model.zp_karamidmul_raw p k (po 0) (po 1))
+     | "mul_r" -> sp (Model.zp_mul_r p k (nat_of_int (int_of_string a.(0))) (po 1) (po 2))
+     | "stdmul_r" -> sp (Model.zp_stdmul_r p (nat_of_int (int_of_string a.(0))) (po 1) (po 2))
+     | "karamul_r" -> sp (Model.zp_karamul_r p k (nat_of_int (int_of_string a.(0))) (po 1) (po 2))
+     | "sqr_r" -> sp (Model.zp_sqr_r p k s (po 0) (nat_of_int (int_of_string a.(1))) (nat_of_int (int_of_string a.(2))))
+     | "stdsqr_r" -> sp (Model.zp_stdsqr_r p (po 0))
+     | "sqrrec_r" -> sp (Model.zp_sqrrec_r p k s (po 0) (nat_of_int (int_of_string a.(1))) (nat_of_int (int_of_string a.(2))))
+     | "subin_range" -> sp (Model.zp_subin_range p (po 0) (po 1))
+     | "subin_grow" -> sp (Model.zp_subin_grow p (po 0) (po 1))
+     | "subin_at" -> sp (Model.zp_subin_at p (po 0) (po 1) (nat_of_int (int_of_string a.(2))))
      | _ -> "UNKNOWN-OP")
   | _ -> "BAD-LINE")
